@@ -54,6 +54,9 @@ def _execute_chunk(args):
     return [rows.get(i + 1) for i in range(len(cases))], extra
 
 
+UNCONFIRMED = []
+
+
 def execute(exe, cases, tag):
     """Run the cases (in parallel chunks); returns list of rows aligned with cases (row or None) + deinit crash notes."""
     n = max(1, min(vlib.NCPU - 2, len(cases) // 50 or 1))
@@ -69,6 +72,18 @@ def execute(exe, cases, tag):
             r["i"] += base
         rows += rs
         extra += ex
+    # a child that dies or is killed BEFORE it calls svt_av1_enc_set_parameter (in init_handle, under a sanitizer on a loaded host) says
+    # nothing about the call under test: such cases are run again on their own and judged by what the repetition observes; only
+    # a repeated early death is reported (crashes inside the call are never re-run)
+    for i, (c, r) in enumerate(zip(cases, rows)):
+        if r is None or (not r.get("cfg") and r.get("before_call")):
+            for attempt in range(2):
+                rs, ex = _execute_chunk((exe, [c], tag + "_again%d_%d" % (i, attempt), 0))
+                if rs and rs[0] is not None and (rs[0].get("cfg") or not rs[0].get("before_call")):
+                    rs[0]["i"] = i + 1
+                    rows[i] = rs[0]
+                    UNCONFIRMED.append({"case": case_line(c), "first_observation": r})
+                    break
     return rows, extra
 
 
@@ -196,6 +211,8 @@ def run(res):
         for r in extra:
             res.violation("svt_av1_enc_deinit_handle crashes (signal %s) after set_parameter for: %s" % (r.get("signal"), case_line(cases[r["i"] - 1])),
                           case_line(cases[r["i"] - 1]), {"kind": "crash-deinit", "variant": variant})
+        if UNCONFIRMED:
+            res.cov["unconfirmed_early_deaths"] = UNCONFIRMED[:20]     # died before the call once, fine when repeated
         nrej = sum(1 for r in rows if r and r.get("returned") and r.get("ret"))
         res.add("rows_rejected_by_library", nrej)
         res.add("rows_accepted_by_library", sum(1 for r in rows if r and r.get("returned") and r.get("ret") == 0))
